@@ -28,6 +28,7 @@ type Profile struct {
 	WheelBias    bool // custom expiry: short creation TTLs (wheel level 0/1), reads extending to a coarser level
 	SmallReadBuf bool // one read-buffer stripe (16 slots): read events get dropped
 	NoCustomExp  bool // only the built-in expiry policies (reads never shorten a deadline)
+	AccessBias   bool // prefer expire-after-access among the built-in policies
 	MidBound     bool // maximum between a third and the whole of the key space (eviction passes with several victims and arrivals)
 }
 
@@ -135,6 +136,9 @@ func GenCfg(r *simrt.Rng, p *Profile) Cfg {
 		exp = []string{"creating", "writing", "accessing", "custom", "custom"}[r.Intn(5)]
 		if p.NoCustomExp && exp == "custom" {
 			exp = []string{"creating", "writing", "accessing"}[r.Intn(3)]
+			if p.AccessBias {
+				exp = "accessing" // overall about half of the configurations: reads move deadlines
+			}
 		}
 	}
 	c.Expiry = exp
